@@ -348,3 +348,7 @@ def check(col: Collector):
     with col.rule():
         shared(col, "C19.R10", [c04._zero_division, c04._calls],
                why="apart from the documented division by zero, a deferred node raises what immediate evaluation raises")
+    from . import c20
+    with col.rule():
+        shared(col, "C19.R10", [c20._no_semantic_directives],
+               why="deferred and immediate evaluation agree only if the compiled nodes keep Python's arithmetic")
